@@ -23,7 +23,10 @@ type LockReq struct {
 	MTag      string        // logical tag of the mutex
 	key       string        // canonical sort key
 	seen      bool          // stall matching done
-	grant     chan struct{}
+	// Yield: not a lock request at all but a goroutine parked right after it released a lock (a caller descheduled
+	// between a critical section and its next statement); M is a fresh token, always free
+	Yield bool
+	grant chan struct{}
 }
 
 type lockState struct {
@@ -43,6 +46,10 @@ type Stall struct {
 	DelayMs int    `json:"delay_ms"`
 	// Every > 0: from the Nth matching acquisition on, every Every-th one is delayed (a uniformly slow goroutine)
 	Every int `json:"every,omitempty"`
+	// Kind "" delays the grant of a lock request; "unlock" parks the goroutine right after the Nth matching
+	// release (Site is then the function that released): the windows between a critical section and the next
+	// statement of the same goroutine - a channel operation, a timer - that no lock request opens
+	Kind string `json:"kind,omitempty"`
 }
 
 // StallWindow is one delay a stall actually imposed.
@@ -52,6 +59,9 @@ type StallWindow struct {
 	// Holding: the stalled goroutine held at least one other lock at that moment (a caller descheduled inside a
 	// critical section of the system under test stalls the system, not just itself)
 	Holding bool
+	// Site of the delayed request; AfterRelease: the goroutine was parked right after releasing there (kind "unlock")
+	Site         string
+	AfterRelease bool
 }
 
 // Sched arbitrates every mutex of the system under test in controlled mode.
@@ -66,6 +76,8 @@ type Sched struct {
 	shutdown bool
 	stalls   []Stall
 	stallHit []int
+	// unlockStalls: the plan has stalls of kind "unlock" (only then a release is a scheduling point at all)
+	unlockStalls bool
 	// Grants counts grants per "role|site" (reach statistics).
 	Grants map[string]int
 	// StallsFired counts stalls that actually delayed a request.
@@ -79,7 +91,13 @@ type Sched struct {
 }
 
 func newSched(w *World, stalls []Stall) *Sched {
-	return &Sched{w: w, locks: map[any]*lockState{}, gtags: map[uint64]string{}, mtagN: map[string]int{}, stalls: stalls, stallHit: make([]int, len(stalls)), Grants: map[string]int{}}
+	s := &Sched{w: w, locks: map[any]*lockState{}, gtags: map[uint64]string{}, mtagN: map[string]int{}, stalls: stalls, stallHit: make([]int, len(stalls)), Grants: map[string]int{}}
+	for _, st := range stalls {
+		if st.Kind == "unlock" {
+			s.unlockStalls = true
+		}
+	}
+	return s
 }
 
 const repoPrefix = "github.com/tonkeeper/tongo/"
@@ -206,7 +224,91 @@ func (s *Sched) Unlock(m any, write bool) {
 	if s.OnUnlock != nil {
 		s.OnUnlock(m, write, gid, site)
 	}
+	s.mu.Lock()
+	us := s.unlockStalls
+	s.mu.Unlock()
+	if us {
+		s.yieldAfterUnlock(gid, write)
+		return
+	}
 	s.w.kickDriver()
+}
+
+// yieldAfterUnlock parks the calling goroutine as a pending pseudo-request if some "unlock" stall of the plan names
+// its role and the releasing function; the driver counts and delays it in canonical order like a lock request.
+func (s *Sched) yieldAfterUnlock(gid uint64, write bool) {
+	role, site, caller := whoAmIUnlock()
+	match := false
+	s.mu.Lock()
+	for _, st := range s.stalls {
+		if st.Kind == "unlock" && strings.Contains(role, st.Role) && strings.Contains(site, st.Site) {
+			match = true
+		}
+	}
+	s.mu.Unlock()
+	if !match {
+		s.w.kickDriver()
+		return
+	}
+	r := &LockReq{M: new(int), Yield: true, Role: role, Site: site, Caller: caller, Gid: gid, grant: make(chan struct{})}
+	s.mu.Lock()
+	s.seq++
+	r.Seq = s.seq
+	r.GTag = s.gtags[gid]
+	r.MTag = "yield"
+	mode := "yR"
+	if write {
+		mode = "yW"
+	}
+	r.key = r.MTag + "|" + r.GTag + "|" + role + "|" + site + "|" + caller + "|" + mode
+	s.pending = append(s.pending, r)
+	s.mu.Unlock()
+	s.w.kickDriver()
+	<-r.grant
+	if s.shutdown {
+		runtime.Goexit()
+	}
+}
+
+// whoAmIUnlock is whoAmI for a release: deferred releases may show runtime frames between the hook and the function.
+func whoAmIUnlock() (role, site, caller string) {
+	var pcs [48]uintptr
+	n := runtime.Callers(4, pcs[:])
+	frames := runtime.CallersFrames(pcs[:n])
+	var names []string
+	for {
+		f, more := frames.Next()
+		if f.Function != "" {
+			names = append(names, f.Function)
+		}
+		if !more {
+			break
+		}
+	}
+	skip := func(nm string) bool {
+		return strings.Contains(nm, "utils/simhook.") || strings.HasPrefix(nm, "verif/sim/core.") || strings.HasPrefix(nm, "runtime.")
+	}
+	i := 0
+	for i < len(names) && skip(names[i]) {
+		i++
+	}
+	if i < len(names) {
+		site = shortFn(names[i])
+	}
+	for i++; i < len(names) && skip(names[i]); i++ {
+	}
+	if i < len(names) {
+		caller = shortFn(names[i])
+	}
+	for j := len(names) - 1; j >= 0; j-- {
+		nm := names[j]
+		if nm == "runtime.goexit" || strings.HasPrefix(nm, "runtime.") || strings.HasPrefix(nm, "testing.") || strings.HasPrefix(nm, "internal/synctest") || strings.HasPrefix(nm, "testing/synctest") {
+			continue
+		}
+		role = shortFn(nm)
+		break
+	}
+	return
 }
 
 func (s *Sched) state(m any) *lockState {
@@ -221,6 +323,9 @@ func (s *Sched) state(m any) *lockState {
 func (s *Sched) grantable(r *LockReq, now time.Duration) bool {
 	if r.NotBefore > now {
 		return false
+	}
+	if r.Yield {
+		return true
 	}
 	st := s.state(r.M)
 	if r.Write {
@@ -258,6 +363,7 @@ func (s *Sched) DisableStalls() {
 	s.mu.Lock()
 	s.stalls = nil
 	s.stallHit = nil
+	s.unlockStalls = false
 	for _, r := range s.pending {
 		r.NotBefore = 0
 	}
@@ -290,7 +396,7 @@ func (s *Sched) normalize(now time.Duration) {
 		}
 		r.seen = true
 		for i, st := range s.stalls {
-			if strings.Contains(r.Role, st.Role) && strings.Contains(r.Site, st.Site) {
+			if (st.Kind == "unlock") == r.Yield && strings.Contains(r.Role, st.Role) && strings.Contains(r.Site, st.Site) {
 				s.stallHit[i]++
 				if s.stallHit[i] == st.Nth || (st.Every > 0 && s.stallHit[i] > st.Nth && (s.stallHit[i]-st.Nth)%st.Every == 0) {
 					holding := false
@@ -299,7 +405,7 @@ func (s *Sched) normalize(now time.Duration) {
 							holding = true
 						}
 					}
-					s.Windows = append(s.Windows, StallWindow{Role: r.Role, From: now, To: now + time.Duration(st.DelayMs)*time.Millisecond, Holding: holding})
+					s.Windows = append(s.Windows, StallWindow{Role: r.Role, From: now, To: now + time.Duration(st.DelayMs)*time.Millisecond, Holding: holding, Site: r.Site, AfterRelease: r.Yield})
 					r.NotBefore = now + time.Duration(st.DelayMs)*time.Millisecond
 					s.StallsFired++
 					s.w.wakeAt(r.NotBefore)
@@ -339,16 +445,20 @@ func (s *Sched) Grant(r *LockReq) {
 			break
 		}
 	}
-	st := s.state(r.M)
-	if r.Write {
-		st.writer = true
-		st.wgid = r.Gid
-		st.wsite = r.Site
+	if r.Yield {
+		s.Grants[r.Role+"|"+r.Site+"|after-release"]++
 	} else {
-		st.readers++
-		st.rgids[r.Gid]++
+		st := s.state(r.M)
+		if r.Write {
+			st.writer = true
+			st.wgid = r.Gid
+			st.wsite = r.Site
+		} else {
+			st.readers++
+			st.rgids[r.Gid]++
+		}
+		s.Grants[r.Role+"|"+r.Site]++
 	}
-	s.Grants[r.Role+"|"+r.Site]++
 	s.mu.Unlock()
 	if s.OnGrant != nil {
 		s.OnGrant(r) // before the grantee can run
@@ -362,6 +472,10 @@ func (s *Sched) Held() []string {
 	defer s.mu.Unlock()
 	var out []string
 	for _, r := range s.pending {
+		if r.Yield {
+			out = append(out, r.Role+" parked after releasing at "+r.Site)
+			continue
+		}
 		st := s.state(r.M)
 		holder := ""
 		if st.writer {
